@@ -36,6 +36,7 @@ func init() {
 			bs = append(bs, Batch{Name: "failures", Args: map[string]string{"mode": "failures", "procs": "4"}, Race: true, Procs: 4})
 			bs = append(bs, Batch{Name: "tcp-p4", Args: map[string]string{"procs": "4", "mode": "tcp"}, Race: true, Procs: 4, Weight: 2})
 			bs = append(bs, Batch{Name: "sup-p4", Args: map[string]string{"procs": "4", "mode": "sup"}, Race: true, Procs: 4, Weight: 2})
+			bs = append(bs, Batch{Name: "linger-p4", Args: map[string]string{"procs": "4", "mode": "linger"}, Race: true, Procs: 4, Weight: 2})
 			for _, p := range []int{2, 16} {
 				bs = append(bs, Batch{Name: fmt.Sprintf("poll-p%d", p), Args: map[string]string{"mode": "poll", "procs": fmt.Sprint(p)}, Race: p == 2, Procs: p, Weight: min(p, 4)})
 			}
@@ -173,6 +174,9 @@ func runC06(c *Ctx) {
 	case "sup":
 		runSupervised(c, "C06")
 		return
+	case "linger":
+		runLingerRounds(c, "C06")
+		return
 	}
 	grid := c06Grid()
 	reps := c.ArgInt("reps", c.Pick(3, 1))
@@ -301,7 +305,65 @@ func runC06Poll(c *Ctx) {
 			c.R.Violate(rig.Violation{Sig: "c06|connection-broken-by-refused-connect", Detail: "after the refused Connects the connection no longer answers a PING", Case: Case("poll", idx)})
 		}
 		c.R.Class(fmt.Sprintf("poll|in-register=%v|refusers=%d|procs=%s", inReg, nRefused, procs))
-		CloseWatched(s.Conn)
+		if idx%2 == 1 {
+			// the server hangs up while four application goroutines keep asking Connected() and String(): the end of
+			// the stream must still lead to exactly one DISCONNECTED and Connected() == false
+			var nDisc int64
+			discd := make(chan struct{}, 4)
+			s.Conn.HandleFunc(client.DISCONNECTED, func(_ *client.Conn, _ *client.Line) {
+				atomic.AddInt64(&nDisc, 1)
+				discd <- struct{}{}
+			})
+			stop2 := make(chan struct{})
+			var pwg sync.WaitGroup
+			for g := 0; g < 4; g++ {
+				pwg.Add(1)
+				go func(g int) {
+					defer pwg.Done()
+					for k := 0; ; k++ {
+						select {
+						case <-stop2:
+							return
+						default:
+						}
+						if g == 3 && k%64 == 0 {
+							_ = s.Conn.String()
+						} else {
+							s.Conn.Connected()
+						}
+					}
+				}(g)
+			}
+			time.Sleep(200 * time.Microsecond)
+			mc.SendEOF()
+			got := waitUntilShort(func() bool { return atomic.LoadInt64(&nDisc) > 0 }, 3*time.Second)
+			close(stop2)
+			pwg.Wait()
+			if !got && !waitCh(chanOf2(discd)) {
+				ds := rig.ProveDead(WaitShort)
+				if ds.Dead {
+					c.R.Violate(rig.Violation{Sig: "c06|disconnected-never|" + ds.Signature, Detail: "the server closed the stream while application goroutines were polling Connected(): no DISCONNECTED was ever delivered, Connected() = " + fmt.Sprint(s.Conn.Connected()) + " (dead state " + ds.Signature + ")", Case: Case("poll", idx), Witness: ds.Dump})
+				} else {
+					c.R.Inconcl(fmt.Sprintf("%s: no DISCONNECTED after EOF under polling (%s)", Case("poll", idx), ds.Reason))
+				}
+				go s.Conn.Close()
+				s.Release()
+				if c.R.NumViolations() > 6 {
+					return
+				}
+				continue
+			}
+			if s.Conn.Connected() {
+				c.R.Violate(rig.Violation{Sig: "c06|connected-true-after-disconnected", Detail: "Connected() is true after the DISCONNECTED that followed the server's EOF", Case: Case("poll", idx)})
+			}
+			c.R.Count("eof_under_polling", 1)
+			rig.WaitNoLib(WaitShort, 400)
+			if n := atomic.LoadInt64(&nDisc); n != 1 {
+				c.R.Violate(rig.Violation{Sig: "c06|disconnected-count", Detail: fmt.Sprintf("%d DISCONNECTED events for one connection ended by EOF under polling", n), Case: Case("poll", idx)})
+			}
+		} else {
+			CloseWatched(s.Conn)
+		}
 		s.Release()
 		if c.R.NumViolations() > 6 {
 			return
@@ -532,3 +594,5 @@ func runC06Failures(c *Ctx) {
 		s.Release()
 	}
 }
+
+func chanOf2(c chan struct{}) <-chan struct{} { return c }
